@@ -432,7 +432,9 @@ def main():
         path = write_replay(pid, 'static', hdr, [])
         # a concrete witness path in the source is a failing input for "never writes" only if the write executes; the
         # fingerprint comparison below looks for an execution; the static witness alone is reported as such
-        violations.append((path, 'a write primitive is reachable from a shared-reference operation: %s' % (det.get('witness'),), not bool(det.get('witness'))))
+        # the static theorem over the regenerated call graph no longer checks; a concrete execution that writes is looked for by
+        # the fingerprint comparison (component ro) below: without one this is reported as no-failing-input-found
+        violations.append((path, 'static theorem C19_static_no_write no longer checks: a write primitive is reachable from a shared-reference operation (witness %s)' % (det.get('witness'),), True))
     known_hits = []
     known = [k for k in load_known() if k['pid'] == pid]
 
